@@ -201,6 +201,9 @@ class RequestManager(BaseModel):
     def check_valid(self, request: RequestFormat, context: Dict) -> bool:
         """Check if this request would be valid in the current state of the simulation without invoking it."""
 
+        if not request:
+            return False
+
         request_key = request[0]
         request_options = request[1:]
 
@@ -209,11 +212,15 @@ class RequestManager(BaseModel):
 
         request_type = self.request_types[request_key]
 
+        # every validator along the path must pass, exactly as in __call__
+        if not request_type.validator(request_options, context):
+            return False
+
         # recurse if we are not at a leaf node
         if isinstance(request_type.func, RequestManager):
             return request_type.func.check_valid(request_options, context)
 
-        return request_type.validator(request_options, context)
+        return True
 
 
 class SimComponent(BaseModel):
